@@ -97,7 +97,7 @@ def main():
         if fid not in seen:
             seen.add(fid)
             lines.append(f"KNOWN-FINDING: property={pid} {text}")
-    os.makedirs(os.path.join(VERIF, "replays"), exist_ok=True)
+    os.makedirs(os.path.join(core.OUT_DIR, "replays"), exist_ok=True)
     nviol = 0
     if new_violations and os.environ.get("VERIF_NO_SHRINK") != "1":
         # reduce the first failing case (drop shells / primitives / segments, simplify numbers) while it still fails
@@ -108,13 +108,13 @@ def main():
         except Exception:
             pass
     for k, v in enumerate(new_violations[:5]):
-        path = os.path.join(VERIF, "replays", f"{pid}-{tier}-{seed}-{k}.json")
+        path = os.path.join(core.OUT_DIR, "replays", f"{pid}-{tier}-{seed}-{k}.json")
         with open(path, "w") as fh:
             json.dump({"property": pid, "what": v["what"], **v["replay"]}, fh, indent=1, default=str)
         lines.append(f"VIOLATION property={pid} replay={path}")
         nviol += 1
     if broken and not new_violations:
-        path = os.path.join(VERIF, "replays", f"{pid}-{tier}-{seed}-obligation.json")
+        path = os.path.join(core.OUT_DIR, "replays", f"{pid}-{tier}-{seed}-obligation.json")
         with open(path, "w") as fh:
             json.dump({"property": pid, "no_longer_checks": [{"name": n, "detail": d} for n, _, d in broken],
                        "note": "no concrete failing input was found by the search on the implementation"},
@@ -151,8 +151,8 @@ def main():
         "wall_s": round(time.time() - t0, 2),
         "violations": nviol,
     }
-    os.makedirs(os.path.join(VERIF, "evidence"), exist_ok=True)
-    with open(os.path.join(VERIF, "evidence", f"{pid}.json"), "w") as fh:
+    os.makedirs(os.path.join(core.OUT_DIR, "evidence"), exist_ok=True)
+    with open(os.path.join(core.OUT_DIR, "evidence", f"{pid}.json"), "w") as fh:
         json.dump(ev, fh, indent=1, default=str)
     for ln in lines:
         print(ln)
